@@ -432,14 +432,57 @@ func isResultOf(v ssa.Value, idx int, names ...string) bool {
 // constOf returns the compile-time constant value of v, if any.
 func constOf(v ssa.Value) (constant.Value, bool) {
 	var out constant.Value
+	differ := false
 	ok := xforms(v, func(x ssa.Value) bool {
 		if c, ok := x.(*ssa.Const); ok && c.Value != nil {
+			if out != nil && (out.Kind() != c.Value.Kind() || out.ExactString() != c.Value.ExactString()) {
+				differ = true
+			}
 			out = c.Value
 			return true
 		}
 		return false
 	})
-	return out, ok
+	return out, ok && !differ
+}
+
+// constStrings: every value v can take is a string constant (alternatives merge
+// in phis); the distinct alternatives.
+func constStrings(v ssa.Value) ([]string, bool) {
+	var out []string
+	seen := map[ssa.Value]bool{}
+	var rec func(v ssa.Value, d int) bool
+	rec = func(v ssa.Value, d int) bool {
+		v = strip(v)
+		if ph, isPhi := v.(*ssa.Phi); isPhi {
+			if seen[v] {
+				return true
+			}
+			seen[v] = true
+			if d > 6 || len(ph.Edges) == 0 {
+				return false
+			}
+			for _, e := range ph.Edges {
+				if !rec(e, d+1) {
+					return false
+				}
+			}
+			return true
+		}
+		s, ok := constString(v)
+		if !ok {
+			return false
+		}
+		for _, o := range out {
+			if o == s {
+				return true
+			}
+		}
+		out = append(out, s)
+		return true
+	}
+	ok := rec(v, 0)
+	return out, ok && len(out) > 0
 }
 
 func constInt(v ssa.Value) (int64, bool) {
